@@ -196,9 +196,14 @@ PathFrom(node, i, items, f, st) ==
                  ELSE IF last THEN Ok(SeqValue(its, node.keep), R.st)        \* P6
                  ELSE PathFrom(node, i + 1, its, f, R.st)
 
+\* "a path that starts with $, $$ or a variable is anchored ... instead of mapping over it": the variable may carry any
+\* number of predicates and order-by operators (they belong to the step)
+RECURSIVE VarHead(_)
+VarHead(n) == n.k = "Variable" \/ (n.k \in {"Predicate", "Sort"} /\ VarHead(n.e))
+
 EvalPath(node, ctx, f, st) ==
     LET s1    == node.steps[1]
-        isVar == s1.k = "Variable" \/ (s1.k = "Predicate" /\ s1.e.k = "Variable")
+        isVar == VarHead(s1)
         its0  == IF isVar \/ ~IsArr(ctx) THEN <<ctx>> ELSE ctx.v             \* P1
     IN  IF s1.k = "Array" THEN
             \* an array constructor in first position is evaluated once, over the whole context
